@@ -152,6 +152,15 @@ theorem code_invariants_hold (s : Core) (hw : WF s) (hc : AllCovered s) (hn : Ba
     tie_VestingPoolReserveAmountInvariant s hi]
   exact ⟨hb.1.1, hb.1.2, hb.2⟩
 
+/-- **AllInvariants** (the first of the three that is broken; the loop over the literal list of the
+    three functions is unrolled by the translator) = `allInvariantsBroken` -/
+theorem tie_AllInvariants (s : Core) (h : IdsOK s) :
+    Gen.AllInvariants s.bank (storeOf s) = ("", allInvariantsBroken s, storeOf s) := by
+  unfold Gen.AllInvariants
+  simp only [tie_SellingPoolReserveAmountInvariant, tie_PayingPoolReserveAmountInvariant s h,
+    tie_VestingPoolReserveAmountInvariant s h, allInvariantsBroken]
+  cases sellingInvBroken s <;> cases payingInvBroken s <;> cases vestingInvBroken s <;> simp
+
 /-- **C01 at the level of the translated code**: in EVERY reachable state — any history of
     messages, keeper calls, third-party transfers, blocks and genesis round trips — each of the
     module's three registered invariants, as translated from keeper/invariants.go, reports
